@@ -295,13 +295,17 @@ def run(ck):
                 "thorough: pairs of edits; every edited program must be rejected",
         "base_programs": len(base), "accepted_edits": accepted,
         "edits_per_rule(tried, accepted)": per_rule, "rust_verdicts": verdicts,
-        "explanation": "C17 is decided by enumeration of rule-breaking edits against the real checker (its 2.6 kLoC "
-                       "inference engine has no Gallina model); the rules themselves are the boolean re-checker "
-                       "Lang/Wt.v, whose verdict on the checker's output is computed for every accepted program in "
-                       "C05/C01.",
+        "explanation": "C17: theorems about a function-by-function Gallina model of check.rs (scoping, rejection lemmas lifted to "
+                       "every context: Props/C17.v), the model tied to the real checker on every program of the run "
+                       "(coverage.checker_model_tie), plus enumeration of rule-breaking edits and mutants against the real "
+                       "checker; the reference rules are the boolean re-checker Lang/Wt.v, whose verdict on the checker's "
+                       "output is computed for every accepted program in C05/C01.",
     })
     ck.samples = [e[1] for e in edits[:3]]
-    return ck.finish(level="other", trusted=COMMON_TRUSTED)
+    return ck.finish(level="proof", trusted=COMMON_TRUSTED + [
+        "modelled in Coq: src/check.rs type_check (expressions, statements, patterns, functions, top level) as Check/Infer.v; "
+        "tie = same typed program or both reject, per program text of the run; join / const-sized arrays / non-literal consts outside",
+        "the theorems are about the model of the checker; soundness w.r.t. the reference rules Wt.v is refuted in general (known finding of C05)"])
 
 
 def known_key(rule):
